@@ -45,3 +45,29 @@ Proof.
   - intros s st b ds ->. exists ds. cbn. rewrite Z.eqb_refl. split; reflexivity.
   - vm_compute. reflexivity.
 Qed.
+
+(* arithmetic coding with the concrete QM coder: a DC difference, the AC coefficients of ex_block
+   (first scan 1..63, Al = 0) and a refinement of ex_block at Al = 1, coded into real bytes and decoded *)
+From LJT Require Import model.T81Arith proofs.ArithQMProofs.
+Definition arith_example_check : bool :=
+  let '(dcd, ctx') := enc_dc_arith 4 0 1 (-1000) in
+  let acd := enc_acf_block_a 5 1 63 0 ex_block in
+  let hist := acr_expected 1 63 2 ex_block (repeat 0 64) in
+  let rfd := enc_acr_block_a 1 63 1 2 ex_block in
+  let bytes := qm_encode_all (dcd ++ acd ++ rfd) in
+  match dec_dc_arith qdec qm_decode 4 0 1 (qm_init_dec bytes) with
+  | Some (v, c, q1) =>
+      match dec_acf_a qdec qm_decode 5 63 0 130 1 true (repeat 0 64) q1 with
+      | Some (blk, q2) =>
+          match dec_acr_a qdec qm_decode 63 1 65 1 true hist q2 with
+          | Some (blk2, _) =>
+              (v =? -1000) && (c =? ctx') && list_eqb Z.eqb blk (0 :: skipn 1 ex_block)
+              && list_eqb Z.eqb blk2 (acr_expected 1 63 1 ex_block hist) && (10 <? length bytes)%nat
+          | None => false
+          end
+      | None => false
+      end
+  | None => false
+  end.
+Lemma ex_arith_qm : arith_example_check = true.
+Proof. vm_compute. reflexivity. Qed.
